@@ -74,6 +74,8 @@ struct World<F: TopicSubscriptionFilter + Send + 'static> {
     kinded: HashSet<usize>,
     publish_threshold: f64,
     pub_seq: u64,
+    /// slow peers: their send queues are not drained (they fill up)
+    stalled: HashSet<usize>,
 }
 
 fn kind_of(s: &str) -> PeerKind {
@@ -238,6 +240,15 @@ impl<F: TopicSubscriptionFilter + Send + 'static> World<F> {
                 let r = self.gs.set_application_score(&self.peers[p], v);
                 json!({"res": r})
             }
+            // a slow peer: from now on its send queue is not drained / is drained again
+            "stall" => {
+                self.stalled.insert(vcommon::n(op, "p") as usize);
+                json!({})
+            }
+            "unstall" => {
+                self.stalled.remove(&(vcommon::n(op, "p") as usize));
+                json!({})
+            }
             "hb" => {
                 self.gs.verif_heartbeat();
                 json!({})
@@ -341,6 +352,9 @@ impl<F: TopicSubscriptionFilter + Send + 'static> World<F> {
         let mut pr = vec![];
         let mut pubto = vec![];
         for i in 0..np {
+            if self.stalled.contains(&i) {
+                continue;
+            }
             let peer = self.peers[i];
             for rpc in self.gs.verif_drain_rpcs(&peer) {
                 if !rpc.publish.is_empty() {
@@ -399,6 +413,9 @@ fn gs_config(c: &Value) -> gs::Config {
         .check_explicit_peers_ticks(1_000_000)
         .opportunistic_graft_ticks(if c.get("opp").and_then(|x| x.as_bool()).unwrap_or(false) { 2 } else { 1_000_000 })
         .validation_mode(ValidationMode::Permissive);
+    if let Some(q) = c.get("qlen").and_then(|x| x.as_u64()) {
+        b.connection_handler_queue_len(q as usize);
+    }
     b.build().expect("valid gossipsub config")
 }
 
@@ -437,6 +454,7 @@ fn run_with<F: TopicSubscriptionFilter + Send + 'static>(out: &mut Out, sched: &
         kinded: HashSet::new(),
         publish_threshold,
         pub_seq: 0,
+        stalled: HashSet::new(),
     };
     let _ = w.drain(); // Dial requests for explicit peers
     let mut hdr = c.clone();
@@ -546,7 +564,7 @@ struct GenCfg {
 
 fn gen_one(rng: &mut impl Rng, g: &GenCfg, len: usize) -> Value {
     let class = g.class.as_str();
-    let np = rng.gen_range(2..=5usize);
+    let np = if class == "fanout" && rng.gen_bool(0.5) { rng.gen_range(5..=8usize) } else { rng.gen_range(2..=5usize) };
     let nt = match class {
         "filter" | "filterg" => rng.gen_range(3..=5usize),
         "fanout" => rng.gen_range(1..=2usize),
@@ -577,8 +595,13 @@ fn gen_one(rng: &mut impl Rng, g: &GenCfg, len: usize) -> Value {
         }
         _ => json!({"k": "all"}),
     };
-    let cfg = json!({"np": np, "nt": nt, "lo": lo, "n": n, "hi": hi, "omin": omin, "explicit": explicit, "kinds": kinds,
+    let mut cfg = json!({"np": np, "nt": nt, "lo": lo, "n": n, "hi": hi, "omin": omin, "explicit": explicit, "kinds": kinds,
                      "filter": filter, "opp": class == "mesh" && rng.gen_bool(0.2), "class": class});
+    // fanout class: in half of the runs peers can be slow (send queues of 2 that are not drained for a while)
+    let slow = class == "fanout" && rng.gen_bool(0.5);
+    if slow {
+        cfg["qlen"] = json!(2);
+    }
     let mut ops: Vec<Value> = vec![];
     let mut next_conn = 0usize;
     // track open connections in the generator so that most ops are meaningful
@@ -659,6 +682,7 @@ fn gen_one(rng: &mut impl Rng, g: &GenCfg, len: usize) -> Value {
                 }
                 13..=30 => json!({"a": "rpc", "p": p, "subs": [[any_topic(rng), rng.gen_bool(0.8)]]}),
                 31..=36 => json!({"a": "score", "p": p, "v": ([-10, -1, 0, 1][rng.gen_range(0..4)])}),
+                37..=40 if slow => json!({"a": if rng.gen_bool(0.65) { "stall" } else { "unstall" }, "p": p}),
                 37..=44 => json!({"a": "hb"}),
                 45..=48 => json!({"a": "sub", "t": any_topic(rng)}),
                 49..=52 => json!({"a": "unsub", "t": any_topic(rng)}),
